@@ -45,6 +45,8 @@ func init() {
 				Doc: "If a route matches, no 4xx: legal optional whitespace in Accept/Content-Type must not turn a match into 406/415."},
 			{ID: "C02.h", Template: "T-PROV", Required: true, Run: ruleAllow405,
 				Doc: "405 carries an Allow header naming exactly the methods of the path-matching routes."},
+			{ID: "C02.p", Template: "T-GUARD", Required: true, Run: ruleMediaMatchers,
+				Doc: "'415 when a body is sent with a Content-Type no remaining route consumes': the Content-Type matcher admits only for a reason in the declaration (same obligations as C01.h)."},
 			{ID: "C02.o", Template: "T-SIBLING", Required: true, Run: ruleDerivedRegistrationState,
 				Doc: "'Some route matches ... in the WebService': the routers consult the current route table. Every derived copy of the routes that the request path reads follows every change of WebService.routes (same obligations as C11.l)."},
 			{ID: "C02.n", Template: "T-SIBLING", Required: false, Run: ruleSubmatchContext,
@@ -1138,7 +1140,7 @@ func ruleC02j(c *Ctx) {
 				continue
 			}
 			direct := false
-			for _, s := range p.sources(r.Results[2], provDefault) {
+			for _, s := range p.sources(resultAt(r, 2), provDefault) {
 				if _, isSE, _, _ := serviceErrorCode(p, s); isSE {
 					direct = true
 				}
